@@ -44,6 +44,8 @@ FULL = gen.profile(
   p_poly=0.4,
   p_actfrcrange=0.3,
   p_surfacevel=0.25,
+  p_actgravcomp=0.3,
+  p_gravcomp_x=0.3,
 )
 
 PROFILES = {
